@@ -690,7 +690,7 @@ class ClientTls(Client):
                                 errno.EHOSTDOWN,
                                 errno.ETIMEDOUT,
                                 errno.ECONNREFUSED,
-                                ssl.SSLEOFError):
+                                ssl.SSL_ERROR_EOF):  # args[0] of ssl.SSLEOFError
 
                 self.cutoff = True  # this signals need to close/reopen connection
                 return bytes()  # data empty
@@ -729,7 +729,7 @@ class ClientTls(Client):
                                 errno.EHOSTDOWN,
                                 errno.ETIMEDOUT,
                                 errno.ECONNREFUSED,
-                                ssl.SSLEOFError):
+                                ssl.SSL_ERROR_EOF):  # args[0] of ssl.SSLEOFError
 
                 self.cutoff = True  # this signals need to close/reopen connection
                 result = 0
